@@ -226,8 +226,10 @@ func (w *c20World) ethTx(who int, to *gethcommon.Address, input []byte, gas uint
 	msg, err := w.c.SignEth(a, &evm.EvmTxArgs{Nonce: w.nonce(a.NibiruAddr), GasLimit: gas, GasPrice: c20Price, To: to, Input: input})
 	w.must(err)
 	r := w.c.DeliverEth(msg)
-	if r.Code == 0 && !strings.Contains(r.Log, "vm_error") && !ethFailed(r.Log) {
-		ok = true
+	if r.Code == 0 {
+		if resp, err := evm.DecodeTxResponse(r.Data); err == nil && resp.VmError == "" {
+			ok = true
+		}
 	}
 	w.c.EndBlock()
 	if !ok {
@@ -235,8 +237,6 @@ func (w *c20World) ethTx(who int, to *gethcommon.Address, input []byte, gas uint
 	}
 	return ok
 }
-
-func ethFailed(log string) bool { return strings.Contains(log, "execution reverted") }
 
 func (w *c20World) cosmosTx(msgs ...sdk.Msg) bool {
 	w.c.BeginBlock(5 * time.Second)
@@ -298,9 +298,9 @@ func (w *c20World) apply(op c20Op) {
 		who := abs(op.A)
 		a := w.eth[who%len(w.eth)]
 		n := w.nonce(a.NibiruAddr)
-		args, err := embeds.SmartContract_ERC20Minter.ABI.Pack("", fmt.Sprintf("Token%d", op.B), fmt.Sprintf("TK%d", op.B), uint8(6+abs(op.B)%13))
+		args, err := embeds.SmartContract_ERC20MinterWithMetadataUpdates.ABI.Pack("", fmt.Sprintf("Token%d", op.B), fmt.Sprintf("TK%d", op.B), uint8(6+abs(op.B)%13))
 		w.must(err)
-		if !w.ethTx(who, nil, append(append([]byte{}, embeds.SmartContract_ERC20Minter.Bytecode...), args...), 3_000_000) {
+		if !w.ethTx(who, nil, append(append([]byte{}, embeds.SmartContract_ERC20MinterWithMetadataUpdates.Bytecode...), args...), 3_000_000) {
 			return
 		}
 		addr := crypto.CreateAddress(a.EthAddr, n)
